@@ -69,21 +69,29 @@ RowEqual(r) == IF r.integral THEN r.on = r.off ELSE \A i \in 1..Len(r.eq) : r.eq
 HasQuo(st) == \E x \in DOMAIN st.orig.endo : st.orig.endo[x].def.kind = "quo"
 SolAgrees(e, st) ==
     HasQuo(st) \/
-    LET so == SolUpTo(st.orig, MaxK)
-        sr == SolUpTo(SysOf(st), MaxK)
-    IN \A i \in 1..Len(e.rows) :
+    LET so == SolOptWith(st.orig, e.ss, MaxK, e.T)
+        sr == SolOptWith(SysOf(st), e.ss, MaxK, e.T)
+    IN Len(so) = MaxK + 1 /\ Len(sr) = MaxK + 1 /\ \A i \in 1..Len(e.rows) :
          LET r == e.rows[i] IN
            r.var \in SysVars(st.orig) =>
              /\ r.integral
              /\ Len(r.on) = MaxK + 1 /\ Len(r.off) = MaxK + 1
              /\ \A k \in 0..MaxK : r.off[k + 1] = so[k + 1][r.var] /\ r.on[k + 1] = sr[k + 1][r.var]
 
+(* the spec predicts whether the two runs return: always without the steady-state option; with it, *)
+(* exactly when the system settles - otherwise both raise NoEquilibriumError                       *)
+Settles(e, st) == ~e.ss \/ HasQuo(st) \/ SteadyWith(st.orig, e.T).ok
+
 JudgeSolve(e, st) ==
-    IF ~(e.on_ok /\ e.off_ok) THEN Drift("returns")       \* the relation is stated for pairs that both return
+    IF e.ss /\ e.T < Len(st.orig.lagged) + 2 THEN Drift("option")       \* too short for the lags to settle
+    ELSE IF ~e.on_ok /\ ~e.off_ok
+         THEN IF ~Settles(e, st) /\ e.on_noeq /\ e.off_noeq THEN Ok ELSE Drift("returns")
+    ELSE IF ~(e.on_ok /\ e.off_ok) THEN Drift("returns")  \* the relation is stated for pairs that both return
     ELSE IF ToSet(e.on_keys) # ToSet(e.off_keys) THEN Prop("C03_SameKeys")
     ELSE IF ~ObsPartitionOK(e, st) THEN Prop("C03_Partition")
     ELSE IF \E i \in 1..Len(e.rows) : ~RowEqual(e.rows[i]) THEN Prop("C03_SameSolution")
     ELSE IF st.phase # "done" THEN Drift("loop")
+    ELSE IF ~Settles(e, st) THEN Drift("returns")
     ELSE IF e.part.endo # st.endo \/ e.part.deco # st.deco \/ e.part.lagged # st.lagged \/ e.part.exo # st.exo
          THEN Drift("partition")
     ELSE IF ~SolAgrees(e, st) THEN Drift("sol")
@@ -113,7 +121,7 @@ TraceNext ==
           /\ LET s == LoopExitOp(MoveOp(St)) IN
                 Set(s) /\ verdict' = Worse(verdict, JudgeMove(e, St, s))
        \/ /\ e.ev = "Solve"
-          /\ UNCHANGED vars
+          /\ Set(SolveOp(St, e.ss))
           /\ verdict' = Worse(verdict, JudgeSolve(e, St))
        \/ /\ e.ev = "Numeric"
           /\ UNCHANGED vars
